@@ -320,6 +320,14 @@ pub fn gen_c03(rng: &mut Rng, tier: Tier) -> C03Plan {
     // Rarely: a picture of more than 8192 macroblocks (thousands of macroblocks per row
     // or per column, megasamples).  Kept cheap: DC-only intra picture, sparse P pictures.
     let huge = rng.chance(1, if tier == Tier::Quick { 2500 } else { 400 });
+    let (w, h) = if !huge && rng.chance(1, if tier == Tier::Quick { 800 } else { 150 }) {
+        // more than 16 macroblock rows AND columns at once
+        cfg.density = cfg.density.min(1);
+        cfg.mb_weights[0] += 6;
+        (rng.range(280, 720) as u16, rng.range(260, 576) as u16)
+    } else {
+        (w, h)
+    };
     let (w, h) = if huge {
         cfg.density = 0;
         cfg.mb_weights = [40, 2, 1, 1, 1, 0, 1];
